@@ -923,6 +923,8 @@ def s_eq(a, b):
                 return True
         elif wa and wb:
             return i_cmp('==', ta[1].tid, tb[1].tid)
+    if len(A) == 1 and len(B) == 1 and A[0][0] == 'istr' and B[0][0] == 'istr':
+        return i_cmp('==', A[0][1], B[0][1])  # str() of ints is injective
     # same atom structure, atom-wise exact
     if len(A) == len(B):
         conds = []
